@@ -302,7 +302,7 @@ def evaluate(prop, t, tp, d, o, ns, mo):
                 fails.append("accepted-but-not-conforming" if ik == "ok" else "rejected-but-conforming")
         if jsonish and ik == "ok" and mo.get("image") is not None and sc.get("json"):
             if canon_model_val(mo["image"]) != im["ok"]: fails.append("value-is-not-the-typed-image")
-        info["in_scope"] = bool(sc.get("acc") and sc.get("wf") and jsonish)
+        info["in_scope"] = bool((sc.get("acc") and sc.get("wf") or sc.get("accu") and sc.get("nouq") and sc.get("good")) and jsonish)
     elif prop == "C02":
         if ik == "invalid" and im["invalid"] is not None:
             if mo.get("violations") is not None and modelled:
@@ -318,7 +318,7 @@ def evaluate(prop, t, tp, d, o, ns, mo):
             # (alternatives of a union may each report the same message at the same place)
             if not ({"union", "optional"} & t.features()) and len(set(locs)) != len(locs): fails.append("violation-reported-twice")
     elif prop == "C03":
-        info["in_scope"] = bool(sc.get("acc") and sc.get("nouq") and sc.get("jsonx", sc.get("json")) and not o["coerce"])
+        info["in_scope"] = bool(sc.get("accu", sc.get("acc")) and sc.get("nouq") and sc.get("jsonx", sc.get("json")) and not o["coerce"])
         if ik == "crash": fails.append("crash:" + im["crash"])
         elif ik == "invalid" and im["invalid"] is None: fails.append("errors-not-computable:" + im.get("errors_crash", ""))
         before = snapshot(keep["data"]) if False else None
